@@ -14,6 +14,8 @@ def check(ctx):
             if name != "new_ltf_plan":
                 # log spacing is observed through the stored f, r, L: the walk must step with the resolution of the stored length
                 check_grid(A, R, rules=("R1", "R2"), prefix=tr)
+            if name == "vectorized_ltf_plan":
+                check_bmin_mask(A, R, prefix=tr)     # sibling agreement with the iterative scheduler: the same bmin clamp on the selected resolution
             if name != "vectorized_ltf_plan":
                 collect_compromise(R, tr, found)
         for_paths(ctx, ctx.repo, name, per_path)
